@@ -30,7 +30,11 @@ man = dict(
     hooks=dict(guard="none", enable="n/a: no source hooks; environment models are injected into the namespaces of the imported /repo modules at run time",
                baseline_off_cmd=BASE, source_commits=[], add_only=True),
     engines=[dict(name="symx", path="/verif/vf/engine.py", serves_properties=[c["property_id"] for c in checks],
-                  kind_free_text="bounded symbolic execution of the real Python modules by proxy values over z3 (path-wise, DFS by re-execution), per-path concrete re-validation, replay before report")],
+                  kind_free_text="bounded symbolic execution of the real Python modules by proxy values over z3 (path-wise, DFS by re-execution), per-path concrete re-validation, replay before report"),
+             dict(name="crosshair", path="/verif/vf/xhair/kernels.py", serves_properties=["C02", "C13", "C15"],
+                  kind_free_text="crosshair-tool 0.0.110: second, independent symbolic-execution engine (z3) on leaf kernels calling the real library; counterexamples replayed concretely"),
+             dict(name="second-solver", path="/verif/vf/engine.py", serves_properties=["C08"],
+                  kind_free_text="SMT-LIB2 dump of the one-shot query re-decided by /usr/bin/z3 4.8.12 (and cvc5 1.0.3 in the thorough tier)")],
     checks=checks,
     not_applicable=na,
     notes="All checks regenerate their encoding from /repo's working tree on every run (the library is imported and executed symbolically). Exit 0 held / 1 violation (replayed) / 2 inconclusive or harness fault.",
